@@ -95,7 +95,7 @@ let () = iter_lines (fun line ->
           prev := cur;
           Printf.sprintf "R=%s O=%s L=%s N=%d S=%s" rs (hex_of_bytes r.r_out) (hex_of_bytes r.r_log)
             (List.length cur) (if fresh = [] then "-" else String.concat "," fresh)) results in
-        print_endline (Printf.sprintf "%s K=%d %s" id (if closed_hist defs then 1 else 0) (String.concat "|" segs))
+        print_endline (Printf.sprintf "%s K=%d %s" id (if closed_session defs inputs then 1 else 0) (String.concat "|" segs))
       end
     with Parse t -> print_endline (id ^ " SKIP parse:" ^ t))
   | _ -> ())
